@@ -568,6 +568,391 @@ mod c06 {
         skipped_anchor_step::<2>();
     }
 
+    // ---------------------------------------------------------------------------------------
+    // The "last authorised" shortcut: only a leaf that WAS authorised and yielded is remembered;
+    // a refused leaf is not, so repeating a refused concrete path stays refused.
+    // ---------------------------------------------------------------------------------------
+
+    /// verdict of the access gate for the two leaves (ids 20, 21) of the one-cluster node below
+    static mut DENY2: [bool; 2] = [false; 2];
+    static mut ASKED2: [u8; 2] = [0; 2];
+
+    unsafe fn gate2(leaf: u32) -> Result<(), IMStatusCode> {
+        let k = if leaf == 20 { 0 } else { 1 };
+        ASKED2[k] = ASKED2[k].saturating_add(1);
+        if DENY2[k] {
+            Err(IMStatusCode::UnsupportedAccess)
+        } else {
+            Ok(())
+        }
+    }
+
+    fn attr_gate2<'a>(_cl: &Cluster<'a>, _accessor: &Accessor, _timed: bool, _path: GenericPath, _dts: &[DeviceType], _write: bool, attr_id: AttrId) -> Result<(), IMStatusCode>
+    where
+        'a: 'a,
+    {
+        unsafe { gate2(attr_id) }
+    }
+
+    fn cmd_gate2<'a>(_cl: &Cluster<'a>, _accessor: &Accessor, _timed: bool, _path: GenericPath, _dts: &[DeviceType], cmd_id: CmdId) -> Result<(), IMStatusCode>
+    where
+        'a: 'a,
+    {
+        unsafe { gate2(cmd_id) }
+    }
+
+    fn all_reachable<'a>(_a: &Accessor<'a>, _ep: EndptId) -> bool
+    where
+        'a: 'a,
+    {
+        true
+    }
+
+    fn concrete_path_step<const O: u8>() {
+        let matter = MATTER;
+        let accessor = Accessor::new(1, false, AccessorSubjects::new(7), Some(AuthMode::Case), &matter);
+        let a0 = [Attribute::new(20, Access::all(), Quality::NONE), Attribute::new(21, Access::all(), Quality::NONE)];
+        let c0 = [Command::new(20, None, Access::all()), Command::new(21, None, Access::all())];
+        let cl0 = [Cluster::new(10, 1, 0, &a0, &c0, &[], yes_attr, yes_cmd, yes_event)];
+        let dt = [DeviceType { dtype: 0x100, drev: 1 }];
+        let endpoints = [Endpoint::new(3, &dt, &cl0)];
+        let node = Node::new(&endpoints);
+
+        let deny: [bool; 2] = kani::any();
+        unsafe {
+            DENY2 = deny;
+            ASKED2 = [0; 2];
+        }
+        // a concrete path to one of the two leaves (or to a leaf that does not exist), from the fresh cursor every
+        // item starts with; the triple authorised last is arbitrary
+        let leaf: u32 = kani::any();
+        let path = GenericPath::new(Some(3), Some(10), Some(leaf));
+        let last: Option<(u16, u32, u32)> = if kani::any() { Some((kani::any(), kani::any(), kani::any())) } else { None };
+
+        let mut px: PathExpander<'_, KItem<O>, core::iter::Empty<Result<KItem<O>, Error>>, fn(EndptId, ClusterId, u32) -> bool> = PathExpander {
+            accessor: &accessor,
+            timed: false,
+            items: None,
+            item: Some(KItem(path.clone())),
+            endpoint_id: None,
+            cluster_index: 0,
+            leaf_index: 0,
+            filter: keep_all,
+            last_authorized: last,
+        };
+
+        let r = px.next_for_path(&node);
+
+        let k = if leaf == 20 { Some(0) } else if leaf == 21 { Some(1) } else { None };
+        let asked = unsafe { ASKED2 };
+        match k {
+            None => {
+                kani::assert(
+                    matches!(r, Err(s) if s as u16 == (if O == 2 { IMStatusCode::UnsupportedCommand } else { IMStatusCode::UnsupportedAttribute }) as u16),
+                    "C06.expand.concrete_absent_leaf_status"
+                );
+                kani::assert(px.last_authorized == last, "C06.expand.error_keeps_last_authorised");
+            }
+            Some(k) => {
+                let remembered = last == Some((3, 10, leaf));
+                if deny[k] && !remembered {
+                    kani::assert(matches!(r, Err(IMStatusCode::UnsupportedAccess)), "C06.expand.concrete_refused_leaf_yields_the_gate_status");
+                    kani::assert(px.last_authorized == last, "C06.expand.refused_leaf_is_not_remembered_as_authorised");
+                } else {
+                    kani::assert(matches!(r, Ok(Some((3, 10, l, _))) if l == leaf), "C06.expand.concrete_authorised_leaf_is_yielded");
+                    kani::assert(px.last_authorized == Some((3, 10, leaf)), "C06.expand.last_authorised_is_yielded_leaf");
+                }
+                kani::assert(remembered || asked[k] == 1, "C06.expand.gate_asked_once_unless_authorised_last");
+                kani::assert(asked[1 - k] == 0, "C06.expand.gate_not_asked_about_other_leaves");
+            }
+        }
+        kani::cover!(matches!(r, Err(IMStatusCode::UnsupportedAccess)), "refused by the gate");
+        kani::cover!(matches!(r, Ok(Some(_))) && k.is_some_and(|k| deny[k]), "yielded on the strength of the last authorisation");
+        kani::cover!(matches!(r, Ok(Some(_))) && last.is_none(), "yielded after asking the gate");
+    }
+
+    // TIER: quick
+    // KIND: bounded (1 endpoint x 1 cluster x 2 attributes, fixed ids; concrete path with any leaf id; any gate verdicts; any last-authorised triple)
+    #[kani::proof]
+    #[kani::unwind(5)]
+    #[kani::stub(crate::dm::types::cluster::Cluster::check_attr_access, attr_gate2)]
+    #[kani::stub(crate::dm::types::cluster::Cluster::check_cmd_access, cmd_gate2)]
+    #[kani::stub(crate::acl::Accessor::is_endpoint_accessible, all_reachable)]
+    fn c06_expand_step_concrete_path_read() {
+        concrete_path_step::<0>();
+    }
+
+    // TIER: quick
+    // KIND: bounded (1 endpoint x 1 cluster x 2 commands, fixed ids; concrete path with any leaf id; any gate verdicts; any last-authorised triple)
+    #[kani::proof]
+    #[kani::unwind(5)]
+    #[kani::stub(crate::dm::types::cluster::Cluster::check_attr_access, attr_gate2)]
+    #[kani::stub(crate::dm::types::cluster::Cluster::check_cmd_access, cmd_gate2)]
+    #[kani::stub(crate::acl::Accessor::is_endpoint_accessible, all_reachable)]
+    fn c06_expand_step_concrete_path_invoke() {
+        concrete_path_step::<2>();
+    }
+
+    // ---------------------------------------------------------------------------------------
+    // One step of a WILDCARD expansion on a small node, from every cursor: the leaf yielded is the
+    // first one at or after the cursor that matches the path, sits on a reachable endpoint, passes
+    // the caller's filter and is authorised by the gate; nothing is yielded only when no such leaf
+    // is left; a wildcard never reports an access status.
+    // ---------------------------------------------------------------------------------------
+
+    static mut W_EP_OK: [bool; 2] = [false; 2];
+    static mut W_KEEP: [[bool; 2]; 2] = [[false; 2]; 2];
+    static mut W_DENY: [[bool; 2]; 2] = [[false; 2]; 2];
+    static mut W_ASKED: [[bool; 2]; 2] = [[false; 2]; 2];
+
+    fn w_ix(ep: u16, leaf: u32) -> (usize, usize) {
+        (if ep == 3 { 0 } else { 1 }, if leaf == 20 { 0 } else { 1 })
+    }
+
+    unsafe fn w_gate(path: &GenericPath, leaf: u32) -> Result<(), IMStatusCode> {
+        let (i, k) = w_ix(path.endpoint.unwrap_or(0), leaf);
+        W_ASKED[i][k] = true;
+        if W_DENY[i][k] {
+            Err(IMStatusCode::UnsupportedAccess)
+        } else {
+            Ok(())
+        }
+    }
+
+    fn w_attr_gate<'a>(_cl: &Cluster<'a>, _accessor: &Accessor, _timed: bool, path: GenericPath, _dts: &[DeviceType], _write: bool, attr_id: AttrId) -> Result<(), IMStatusCode>
+    where
+        'a: 'a,
+    {
+        unsafe { w_gate(&path, attr_id) }
+    }
+
+    fn w_cmd_gate<'a>(_cl: &Cluster<'a>, _accessor: &Accessor, _timed: bool, path: GenericPath, _dts: &[DeviceType], cmd_id: CmdId) -> Result<(), IMStatusCode>
+    where
+        'a: 'a,
+    {
+        unsafe { w_gate(&path, cmd_id) }
+    }
+
+    fn w_reachable<'a>(_a: &Accessor<'a>, ep: EndptId) -> bool
+    where
+        'a: 'a,
+    {
+        unsafe { W_EP_OK[if ep == 3 { 0 } else { 1 }] }
+    }
+
+    fn w_keep(e: EndptId, _c: ClusterId, l: u32) -> bool {
+        let (i, k) = w_ix(e, l);
+        unsafe { W_KEEP[i][k] }
+    }
+
+    /// `FIX` fixes part of the verdict space to "yes" (bit 0: the filter keeps every leaf, bit 1: every endpoint is
+    /// reachable) - the full space (FIX = 0) does not close in CBMC.
+    fn wildcard_step<const O: u8, const FIX: u8>() {
+        let matter = MATTER;
+        let accessor = Accessor::new(1, false, AccessorSubjects::new(7), Some(AuthMode::Group), &matter);
+        let a0 = [Attribute::new(20, Access::all(), Quality::NONE), Attribute::new(21, Access::all(), Quality::NONE)];
+        let a1 = [Attribute::new(20, Access::all(), Quality::NONE), Attribute::new(21, Access::all(), Quality::NONE)];
+        let c0 = [Command::new(20, None, Access::all()), Command::new(21, None, Access::all())];
+        let c1 = [Command::new(20, None, Access::all()), Command::new(21, None, Access::all())];
+        let cl0 = [Cluster::new(10, 1, 0, &a0, &c0, &[], yes_attr, yes_cmd, yes_event)];
+        let cl1 = [Cluster::new(10, 1, 0, &a1, &c1, &[], yes_attr, yes_cmd, yes_event)];
+        let dt = [DeviceType { dtype: 0x100, drev: 1 }];
+        let endpoints = [Endpoint::new(3, &dt, &cl0), Endpoint::new(5, &dt, &cl1)];
+        let node = Node::new(&endpoints);
+
+        let ep_ok: [bool; 2] = if FIX & 2 != 0 { [true; 2] } else { kani::any() };
+        let keep: [[bool; 2]; 2] = if FIX & 1 != 0 { [[true; 2]; 2] } else { kani::any() };
+        let deny: [[bool; 2]; 2] = kani::any();
+        unsafe {
+            W_EP_OK = ep_ok;
+            W_KEEP = keep;
+            W_DENY = deny;
+            W_ASKED = [[false; 2]; 2];
+        }
+
+        // a wildcard path over this node: endpoint omitted (the form every operation allows), leaf concrete or - for a
+        // read - omitted as well
+        let leaf: Option<u32> = if O == 0 && kani::any() { None } else { Some(kani::any()) };
+        let path = GenericPath::new(None, Some(10), leaf);
+        // cursor: fresh, or anchored at one of the two endpoints after a leaf of it was yielded
+        let anchor: u8 = kani::any();
+        kani::assume(anchor <= 2);
+        let cur_cl: u16 = kani::any();
+        let cur_leaf: u16 = kani::any();
+        kani::assume(cur_cl <= 1 && cur_leaf <= 2);
+        kani::assume(anchor != 0 || (cur_cl == 0 && cur_leaf == 0));
+        let (i0, k0) = match anchor {
+            0 => (0usize, 0usize),
+            a => ((a - 1) as usize, if cur_cl == 0 { cur_leaf as usize } else { 2 }),
+        };
+
+        let mut px: PathExpander<'_, KItem<O>, core::iter::Empty<Result<KItem<O>, Error>>, fn(EndptId, ClusterId, u32) -> bool> = PathExpander {
+            accessor: &accessor,
+            timed: false,
+            items: None,
+            item: Some(KItem(path.clone())),
+            endpoint_id: match anchor {
+                0 => None,
+                1 => Some(3),
+                _ => Some(5),
+            },
+            cluster_index: cur_cl,
+            leaf_index: cur_leaf,
+            filter: w_keep,
+            last_authorized: None,
+        };
+
+        let r = px.next_for_path(&node);
+
+        // reference: the first eligible leaf at or after the cursor
+        let mut expect: Option<(usize, usize)> = None;
+        let mut i = 2;
+        while i > 0 {
+            i -= 1;
+            let mut k = 2;
+            while k > 0 {
+                k -= 1;
+                let at_or_after = i > i0 || (i == i0 && k >= k0);
+                let matches = leaf.is_none() || leaf == Some(20 + k as u32);
+                if at_or_after && matches && ep_ok[i] && keep[i][k] && !deny[i][k] {
+                    expect = Some((i, k));
+                }
+            }
+        }
+        let asked = unsafe { W_ASKED };
+
+        match r {
+            Ok(Some((e, c, l, _))) => {
+                kani::assert((e == 3 || e == 5) && c == 10 && (l == 20 || l == 21), "C06.expand.yielded_leaf_exists_in_node");
+                let (i, k) = w_ix(e, l);
+                kani::assert(leaf.is_none() || leaf == Some(l), "C06.expand.yielded_leaf_matches_path");
+                kani::assert(ep_ok[i], "C06.expand.yielded_leaf_on_reachable_endpoint");
+                kani::assert(keep[i][k], "C06.expand.yielded_leaf_passed_filter");
+                kani::assert(asked[i][k] && !deny[i][k], "C06.expand.yielded_leaf_authorised_in_this_step");
+                kani::assert(expect == Some((i, k)), "C06.expand.yields_first_authorised_match_after_cursor");
+                kani::assert(
+                    px.endpoint_id == Some(e) && px.cluster_index == 0 && px.leaf_index as usize == k + 1,
+                    "C06.expand.cursor_just_past_yielded_leaf"
+                );
+                kani::assert(px.last_authorized == Some((e, c, l)), "C06.expand.last_authorised_is_yielded_leaf");
+            }
+            Ok(None) => {
+                kani::assert(expect.is_none(), "C06.expand.wildcard_exhausted_only_when_nothing_authorised_is_left");
+                kani::assert(px.last_authorized.is_none(), "C06.expand.no_yield_keeps_last_authorised");
+            }
+            Err(_) => kani::assert(false, "C06.expand.wildcard_never_yields_error_status"),
+        }
+        // the gate is consulted only about leaves that match, are reachable and were kept by the filter
+        let (qi, qk): (usize, usize) = (kani::any(), kani::any());
+        kani::assume(qi < 2 && qk < 2);
+        kani::assert(
+            !asked[qi][qk] || (ep_ok[qi] && keep[qi][qk] && (leaf.is_none() || leaf == Some(20 + qk as u32))),
+            "C06.expand.gate_asked_only_about_eligible_leaves"
+        );
+
+        kani::cover!(matches!(r, Ok(Some((5, _, _, _)))) && anchor == 1 && cur_leaf > 0, "moves on from inside the first endpoint to the second");
+        kani::cover!(matches!(r, Ok(Some(_))) && anchor == 1 && !ep_ok[0], "anchor endpoint no longer reachable, next endpoint served");
+        kani::cover!(matches!(r, Ok(None)) && expect.is_none() && ep_ok[0] && ep_ok[1] && keep[0][0], "everything left is refused, silently");
+        kani::cover!(matches!(r, Ok(Some(_))) && anchor == 0, "first leaf of a fresh expansion");
+    }
+
+    // TIER: quick
+    // KIND: bounded (2 endpoints x 1 cluster x 2 attributes, fixed ids; endpoint-wildcard path; any reachability, filter and gate verdicts; every cursor)
+    #[cfg(verif_unclosed)] // CBMC time-out (900 s)
+    #[kani::proof]
+    #[kani::unwind(5)]
+    #[kani::stub(crate::dm::types::cluster::Cluster::check_attr_access, w_attr_gate)]
+    #[kani::stub(crate::dm::types::cluster::Cluster::check_cmd_access, w_cmd_gate)]
+    #[kani::stub(crate::acl::Accessor::is_endpoint_accessible, w_reachable)]
+    fn c06_expand_step_wildcard_read() {
+        wildcard_step::<0, 0>();
+    }
+
+    // TIER: quick
+    // KIND: bounded (2 endpoints x 1 cluster x 2 commands, fixed ids; endpoint-wildcard path; any reachability, filter and gate verdicts; every cursor)
+    #[cfg(verif_unclosed)] // CBMC time-out (900 s)
+    #[kani::proof]
+    #[kani::unwind(5)]
+    #[kani::stub(crate::dm::types::cluster::Cluster::check_attr_access, w_attr_gate)]
+    #[kani::stub(crate::dm::types::cluster::Cluster::check_cmd_access, w_cmd_gate)]
+    #[kani::stub(crate::acl::Accessor::is_endpoint_accessible, w_reachable)]
+    fn c06_expand_step_wildcard_invoke() {
+        wildcard_step::<2, 0>();
+    }
+
+    // TIER: quick
+    // KIND: bounded (2 endpoints x 1 cluster x 2 attributes, fixed ids; endpoint-wildcard path; filter keeps everything; any reachability and gate verdicts; every cursor)
+    #[cfg(verif_unclosed)] // CBMC time-out (700 s): symbolic gate verdicts over a symbolic cursor do not close even on this node
+    #[kani::proof]
+    #[kani::unwind(5)]
+    #[kani::stub(crate::dm::types::cluster::Cluster::check_attr_access, w_attr_gate)]
+    #[kani::stub(crate::dm::types::cluster::Cluster::check_cmd_access, w_cmd_gate)]
+    #[kani::stub(crate::acl::Accessor::is_endpoint_accessible, w_reachable)]
+    fn c06_expand_step_wildcard_gate_reach_read() {
+        wildcard_step::<0, 1>();
+    }
+
+    // TIER: quick
+    // KIND: bounded (2 endpoints x 1 cluster x 2 commands, fixed ids; endpoint-wildcard path; filter keeps everything; any reachability and gate verdicts; every cursor)
+    #[cfg(verif_unclosed)] // CBMC time-out (700 s): symbolic gate verdicts over a symbolic cursor do not close even on this node
+    #[kani::proof]
+    #[kani::unwind(5)]
+    #[kani::stub(crate::dm::types::cluster::Cluster::check_attr_access, w_attr_gate)]
+    #[kani::stub(crate::dm::types::cluster::Cluster::check_cmd_access, w_cmd_gate)]
+    #[kani::stub(crate::acl::Accessor::is_endpoint_accessible, w_reachable)]
+    fn c06_expand_step_wildcard_gate_reach_invoke() {
+        wildcard_step::<2, 1>();
+    }
+
+    // TIER: quick
+    // KIND: bounded (2 endpoints x 1 cluster x 2 attributes, fixed ids; endpoint-wildcard path; every endpoint reachable; any filter and gate verdicts; every cursor)
+    #[cfg(verif_unclosed)] // CBMC time-out (700 s): symbolic gate verdicts over a symbolic cursor do not close even on this node
+    #[kani::proof]
+    #[kani::unwind(5)]
+    #[kani::stub(crate::dm::types::cluster::Cluster::check_attr_access, w_attr_gate)]
+    #[kani::stub(crate::dm::types::cluster::Cluster::check_cmd_access, w_cmd_gate)]
+    #[kani::stub(crate::acl::Accessor::is_endpoint_accessible, w_reachable)]
+    fn c06_expand_step_wildcard_gate_filter_read() {
+        wildcard_step::<0, 2>();
+    }
+
+    // TIER: quick
+    // KIND: bounded (2 endpoints x 1 cluster x 2 commands, fixed ids; endpoint-wildcard path; every endpoint reachable; any filter and gate verdicts; every cursor)
+    #[cfg(verif_unclosed)] // CBMC time-out (700 s): symbolic gate verdicts over a symbolic cursor do not close even on this node
+    #[kani::proof]
+    #[kani::unwind(5)]
+    #[kani::stub(crate::dm::types::cluster::Cluster::check_attr_access, w_attr_gate)]
+    #[kani::stub(crate::dm::types::cluster::Cluster::check_cmd_access, w_cmd_gate)]
+    #[kani::stub(crate::acl::Accessor::is_endpoint_accessible, w_reachable)]
+    fn c06_expand_step_wildcard_gate_filter_invoke() {
+        wildcard_step::<2, 2>();
+    }
+
+    // TIER: quick
+    // KIND: bounded (2 endpoints x 1 cluster x 2 attributes, fixed ids; endpoint-wildcard path; filter keeps everything, every endpoint reachable; any gate verdicts; every cursor)
+    #[cfg(verif_unclosed)] // CBMC time-out (700 s): symbolic gate verdicts over a symbolic cursor do not close even on this node
+    #[kani::proof]
+    #[kani::unwind(5)]
+    #[kani::stub(crate::dm::types::cluster::Cluster::check_attr_access, w_attr_gate)]
+    #[kani::stub(crate::dm::types::cluster::Cluster::check_cmd_access, w_cmd_gate)]
+    #[kani::stub(crate::acl::Accessor::is_endpoint_accessible, w_reachable)]
+    fn c06_expand_step_wildcard_gate_read() {
+        wildcard_step::<0, 3>();
+    }
+
+    // TIER: quick
+    // KIND: bounded (2 endpoints x 1 cluster x 2 commands, fixed ids; endpoint-wildcard path; filter keeps everything, every endpoint reachable; any gate verdicts; every cursor)
+    #[cfg(verif_unclosed)] // CBMC time-out (700 s): symbolic gate verdicts over a symbolic cursor do not close even on this node
+    #[kani::proof]
+    #[kani::unwind(5)]
+    #[kani::stub(crate::dm::types::cluster::Cluster::check_attr_access, w_attr_gate)]
+    #[kani::stub(crate::dm::types::cluster::Cluster::check_cmd_access, w_cmd_gate)]
+    #[kani::stub(crate::acl::Accessor::is_endpoint_accessible, w_reachable)]
+    fn c06_expand_step_wildcard_gate_invoke() {
+        wildcard_step::<2, 3>();
+    }
+
+
     // TIER: thorough
     // KIND: bounded (node of <= 2 endpoints x 1 cluster(s) x 2 attributes, fixed ids; every path; one step from every cursor of shape "fresh")
     #[cfg(verif_unclosed)] // CBMC time-out (900 s) even with one cluster per endpoint
